@@ -33,6 +33,8 @@ SCRIPTS = {
     # a log that begins in the middle of a session: the first line of the tag is a message the tool cannot take in
     'r': dict(events=[['reject'], ['creq', 3, 'wl_callback'], ['use', 3], ['reject'], ['del', 3]], role='unknown'),
     'r2': dict(events=[['reject'], ['get_registry']], role='unknown'),
+    # an id is mentioned (its object was created before the log began) and only later created
+    'p': dict(events=[['get_registry'], ['orphan', 3], ['creq', 3, 'wl_callback'], ['use', 3], ['del', 3]], role='client'),
     'b3': dict(events=[['get_registry'], ['creq', 3, 'wl_callback'], ['del', 3]], role='client'),
     'd3': dict(events=[['creq', 3, 'wl_callback'], ['del', 3], ['creq', 3, 'wl_callback']], role='unknown'),
     'f3': dict(events=[['get_registry'], ['bind', 3, 'zz_b'], ['use', 3]], role='server', server_side=True),
@@ -43,7 +45,7 @@ SCRIPTS = {
 }
 
 TUPLES_QUICK = [('a', 'b'), ('a', 'c'), ('b', 'd'), ('e', 'a'), ('b3', 'd3', 'f3'), ('b3', 'b3', 'b3'), ('q', 'b'), ('o', 'b3'),
-                ('r', 'b3'), ('r2', 'b3', 'r2')]
+                ('r', 'b3'), ('r2', 'b3', 'r2'), ('p', 'b3')]
 TUPLES_THOROUGH = TUPLES_QUICK + [('c', 'd'), ('e', 'c'), ('b', 'b'), ('d', 'd'), ('a4', 'c4', 'g2'), ('c4', 'a4', 'b3'),
                                   ('a', 'b', 'd3'), ('c', 'e', 'b3'), ('d', 'b', 'g2'), ('a4', 'c4', 'a4'),
                                   ('b3', 'd3', 'f3', 'g2')]
